@@ -53,3 +53,16 @@ Definition check_all (o : opts) (m : mol ZD) (k : Z) (expected : list (list (Z *
 (* what the model computes, for replay files *)
 Definition show_run (o : opts) (m : mol ZD) : result (Z * list (list (Z * Z * list Z))) :=
   match runZ o m with Ok st => Ok (st_k st, obs_levels st) | Raises e => Raises e end.
+
+(* ---- object histories (C04) ---- *)
+From E3FP Require Import Model.Fprinter.
+
+Definition frunZ := frun ZD e3fp_consts FUEL.
+Definition frun_allZ := frun_all ZD e3fp_consts FUEL.
+
+(* after the history h (identity, molecule data at call time), the implementation's observation of the LAST run *)
+Definition check_history (o : opts) (h : list (Z * mol ZD)) (k : Z) (expected : list (list (Z * Z * list Z))) : bool :=
+  match f_last ZD (frun_allZ (new_fprinter ZD o) h) with
+  | Some (Ok st) => (st_k st =? k) && list_eqb (list_eqb obs_eqb) (obs_levels st) expected
+  | _ => false
+  end.
